@@ -87,7 +87,8 @@ def _job_worker(job):
     try:
         b = G_BUILDS[job['build']]
         roots = [job['fn_ir']] + job['uses_ir']
-        text, info = ll2c.translate(b.mod, roots=roots, prefix='', poison_flags=job['poison_flags'], uf_float=job.get('uf_float', ()))
+        text, info = ll2c.translate(b.mod, roots=roots, prefix='', poison_flags=job['poison_flags'], uf_float=job.get('uf_float', ()),
+                                     loop_contracts={job['fn_ir']: job['loops']} if job.get('loops') else None)
         if job.get('rel'):
             b2 = G_BUILDS[job['rel'][0]]
             text2, info2 = ll2c.translate(b2.mod, roots=list(job['rel'][1]), prefix='R_', poison_flags=job['poison_flags'], uf_float=job.get('uf_float', ()))
@@ -376,6 +377,10 @@ class Prop:
                    'workdir': wd, 'replace': c.replace, 'backends': list(c.backends), 'unwind': c.unwind,
                    'timeout': c.timeout if tier == 'quick' else max(c.timeout, 900), 'in_names': [n for t, n in sig['ins']],
                    'cbmc_flags': list(c.flags), 'poison_flags': c.poison_flags, 'uf_float': list(getattr(c, 'uf_float', ())), 'rel': (c.rel[0], list(c.rel[1])) if getattr(c, 'rel', None) else None}
+            if getattr(c, 'loops', None):
+                # parameter names of the shim -> ARG(k) (resolved by ll2c to the function's own locals)
+                job['loops'] = [re.sub(r'\b(%s)\b' % '|'.join(re.escape(n) for _, n in sig['ins']), lambda m: 'ARG(%d)' % [n for _, n in sig['ins']].index(m.group(1)), lc) for lc in c.loops]
+                job['unwind'] = max(job['unwind'], 16)   # loops of the contracts library (one iteration per assigns target)
             if c.kind == 'U':
                 job['cbmc_flags'] = job['cbmc_flags'] + ['--pointer-check', '--bounds-check']
             jobs.append(job)
